@@ -384,8 +384,24 @@ fn run_case<A: Subject>(ctx: &Ctx, only: Option<&str>) -> u64 {
     // ---- set_len
     if want("set_len") {
       for n in 0..=cap + 1 {
+       for stale in [false, true] {
         let Some((c, mut b)) = fresh(len) else { continue };
         let (off, bcap, ..) = b.meta();
+        if stale {
+          // bytes that were written and read back again stay in memory above len
+          let k = (bcap - len).min(5);
+          if k == 0 {
+            continue;
+          }
+          let junk: Vec<u8> = (0..k).map(|i| 0x81 + i as u8).collect();
+          b.put_slice_(&junk);
+          for _ in 0..k {
+            b.get_u8_();
+          }
+          if b.len_() != len {
+            continue;
+          }
+        }
         let before = image(&c);
         let r = std::panic::catch_unwind(std::panic::AssertUnwindSafe(|| b.set_len_(n)));
         let after = image(&c);
@@ -403,7 +419,50 @@ fn run_case<A: Subject>(ctx: &Ctx, only: Option<&str>) -> u64 {
         }
         let (lo, hi) = (len.min(n), len.max(n));
         if b.len_() != n || ch.iter().any(|i| *i < off + lo || *i >= off + hi) || after[off + lo..off + hi].iter().any(|x| *x != 0) {
-          ctx.bad("set-len-zero", "set_len", format!("set_len {} -> {}: len {}, changed {:?}, exposed/hidden bytes {:x?}", len, n, b.len_(), ch, &after[off + lo..off + hi]));
+          ctx.bad(if stale { "set-len-zero-after-get" } else { "set-len-zero" }, "set_len", format!("set_len {} -> {}: len {}, changed {:?}, exposed/hidden bytes {:x?}", len, n, b.len_(), ch, &after[off + lo..off + hi]));
+        }
+       }
+      }
+    }
+    // ---- varint puts at this fill level: in bounds or refused without effect
+    if want("varint") && len > 0 {
+      for (ty, x) in [(0u8, 300i128), (1, 300_000), (1, 5), (2, 1 << 40), (3, -1), (5, -70_000), (6, i64::MIN as i128), (7, 1 << 100)] {
+        let Some((c, mut b)) = fresh(len) else { continue };
+        let (off, bcap, ..) = b.meta();
+        let before = image(&c);
+        let (r, _) = b.varint(ty, x);
+        let after = image(&c);
+        evals += 1;
+        let ch = changed(&before, &after);
+        let m = format!("put_varint#{}", ty);
+        if ch.iter().any(|i| *i < off || *i >= off + bcap) {
+          ctx.bad("varint-outside", &m, format!("at len {}: bytes outside the buffer changed: {:?}", len, ch));
+        }
+        match r {
+          Ok(n) => {
+            if len + n > bcap || b.len_() != len + n || ch.iter().any(|i| *i < off + len || *i >= off + len + n) {
+              ctx.bad("varint-len", &m, format!("at len {} of capacity {}: reported {} bytes, len now {}, bytes changed {:?}", len, bcap, n, b.len_(), ch));
+            }
+            if ty < 4 {
+              let bits = [16, 32, 64, 128][ty as usize];
+              let ux = if bits == 128 { x as u128 } else { (x as u128) & ((1u128 << bits) - 1) };
+              if n != leb_unsigned(ux).len() {
+                ctx.bad("varint-encoding", &m, format!("{} took {} bytes, LEB128 needs {}", ux, n, leb_unsigned(ux).len()));
+              }
+            }
+          }
+          Err(()) => {
+            if b.len_() != len {
+              ctx.bad("failed-put-effect", &m, format!("failed varint put moved len {} -> {}", len, b.len_()));
+            }
+            if ty < 4 {
+              let bits = [16, 32, 64, 128][ty as usize];
+              let ux = if bits == 128 { x as u128 } else { (x as u128) & ((1u128 << bits) - 1) };
+              if len + leb_unsigned(ux).len() <= bcap {
+                ctx.bad("varint-refused", &m, format!("{} needs {} bytes, {} free: refused", ux, leb_unsigned(ux).len(), bcap - len));
+              }
+            }
+          }
         }
       }
     }
